@@ -62,13 +62,25 @@ def r1(ctx):
               "length and count describe the payload exactly", witness=sets)
     fi = ctx.fn(FB)
     hp = fi.params[0]
-    ln = [n for n in walk_own(fi.node) if isinstance(n, ast.Assign) and norm(n.targets[0]) == "length"]
-    ctx.check(bool(ln) and norm(ln[0].value) in ("PacketHeader.SIZE + %s.length" % hp, "%s.length + PacketHeader.SIZE" % hp), "C09.R1", fi, "decode length := SIZE + hdr.length",
-              witness=[norm(x.value) for x in ln])
+    # the message area ends at SIZE + hdr.length: the truncation guard compares exactly that with len(datagram), whatever
+    # temporaries hold it (linear forms over the header field)
+    from .common import lin_form
+    fcfg = cfg_of(fi)
+    SIZE = ctx.folder.class_attr(ctx.repo.cls("connection:PacketHeader"), "SIZE")
+    want_end = (SIZE, (("%s.length" % hp, 1),))
+    alt_end = (SIZE, (("pkt.hdr.length", 1),))
+    dg = fi.params[2]
+    trunc = []
+    for n in fcfg.nodes:
+        if n.kind == "test" and isinstance(n.ast, ast.Compare) and len(n.ast.ops) == 1 and isinstance(n.stmt, ast.If) and any(isinstance(s_, ast.Raise) for s_ in n.stmt.body):
+            l, r, op = n.ast.left, n.ast.comparators[0], n.ast.ops[0]
+            for (a_, b_, o_) in ((l, r, type(op)), (r, l, {ast.Lt: ast.Gt, ast.Gt: ast.Lt, ast.LtE: ast.GtE, ast.GtE: ast.LtE}.get(type(op), type(op)))):
+                if norm(b_) == "len(%s)" % dg and o_ is ast.Gt and lin_form(ctx, fi, a_, n) in (want_end, alt_end):
+                    trunc.append(n)
+    ctx.check(len(trunc) == 1, "C09.R1", fi, "decode length := SIZE + hdr.length", witness=[norm(t_.ast) for t_ in trunc])
+    ctx.check(len(trunc) == 1, "C09.R1", fi, "a datagram shorter than its length field is refused")
     loops = [n for n in walk_own(fi.node) if isinstance(n, ast.For)]
     ctx.check(len(loops) == 1 and norm(loops[0].iter) in ("range(pkt.hdr.count)", "range(%s.count)" % hp), "C09.R1", fi, "decode loops hdr.count times", witness=[norm(l.iter) for l in loops])
-    trunc = [n for n in walk_own(fi.node) if isinstance(n, ast.If) and norm(n.test) in ("length > len(%s)" % fi.params[2], "len(%s) < length" % fi.params[2]) and any(isinstance(s, ast.Raise) for s in n.body)]
-    ctx.check(len(trunc) == 1, "C09.R1", fi, "a datagram shorter than its length field is refused")
 
 
 def _framing(ctx):
@@ -102,17 +114,24 @@ def cursor_model(ctx, fb, un, b):
     if not loops:
         return None
     loop = loops[0]
-    from .capacity import _block_of
-    blk = _block_of(loop)
-    pre = blk[:blk.index(loop)] if blk and loop in blk else []
+    from engine.defuse import defuse_of
+    du = defuse_of(fb)
+    lnode = du.cfg.node_of(loop)
     buf = None          # name of the bytes variable that holds the datagram's message area
     cur = None          # name of an integer cursor variable, when the code walks by offset
-    for st in pre:
-        if isinstance(st, ast.Assign) and len(st.targets) == 1 and isinstance(st.targets[0], ast.Name):
-            if norm(st.value).endswith(".msg"):
-                buf = st.targets[0].id
-            elif isinstance(st.value, ast.Constant) and st.value.value == 0:
-                cur = st.targets[0].id
+    names = {x.id for x in ast.walk(loop) if isinstance(x, ast.Name)}
+    for name in sorted(names):
+        defs = [d for d in du.reaching(name, lnode.id) if d[0] != "ENTRY"] if lnode is not None else []
+        # the definition made before the loop (definitions inside the loop reach its head over the back edge)
+        inside = {id(x) for x in ast.walk(loop) if isinstance(x, (ast.expr, ast.stmt))}
+        outer = [d for d in defs if isinstance(d[1], ast.AST) and id(d[1]) not in inside]
+        if len(outer) == 1:
+            v = outer[0][1]
+            if norm(v).endswith(".msg"):
+                buf = name
+            elif isinstance(v, ast.Constant) and v.value == 0 and type(v.value) is int and any(
+                    isinstance(x, ast.Name) and x.id == name and isinstance(x.ctx, ast.Store) for x in ast.walk(loop)):
+                cur = name
     if buf is None:
         return None
     used_cur = cur is not None and any(isinstance(x, ast.Name) and x.id == cur for x in ast.walk(loop))
@@ -137,6 +156,11 @@ def cursor_model(ctx, fb, un, b):
                 return None
             return add(l, r, 1 if isinstance(e.op, ast.Add) else -1)
         v = fold_int(ctx, fb, e)
+        if v is None and isinstance(e, ast.Name):
+            # a named constant (prefix_size = 5) bound before the loop
+            defs = [d for d in du.reaching(e.id, lnode.id) if d[0] != "ENTRY"] if lnode is not None else []
+            if len(defs) == 1 and isinstance(defs[0][1], ast.AST):
+                v = fold_int(ctx, fb, defs[0][1])
         if v is None:
             return None
         return (0, 0, v)
@@ -337,7 +361,8 @@ def r2(ctx):
                           witness={"refused_up_to": top if top is not None else "unbounded", "writer_minimum": need}, line=g.lineno)
     # which framing for which count - both sides
     crt = sorted(norm(n.test) for n in walk_own(cr.node) if isinstance(n, ast.If))
-    fbt = sorted(norm(n.test) for n in walk_own(fb.node) if isinstance(n, ast.If) and isinstance(n.test, ast.Compare) and norm(n.test.left).endswith(".count"))
+    fbt = sorted(norm(n.test) for n in walk_own(fb.node) if isinstance(n, ast.If) and isinstance(n.test, ast.Compare) and norm(n.test.left).endswith(".count")
+                 and not any(isinstance(x, ast.Raise) for x in n.body))
     ctx.check(crt == sorted(["len(%s) == 0" % cr.params[1], "len(%s) == 1" % cr.params[1]]) and
               [t.replace("pkt.hdr.", "hdr.").replace(fb.params[0] + ".", "hdr.") for t in fbt] == ["hdr.count == 1", "hdr.count > 1"], "C09.R2", cr,
               "framing selected by count: 0 -> empty, 1 -> single, >=2 -> multi, on both sides", witness={"create": crt, "from_bytes": fbt})
